@@ -8,8 +8,8 @@ def run(tier, seed, t0):
     return _sess.run_session_check(
         PROP, tier, seed, t0,
         families=[("connclose", 500, 8000), ("consumer", 100, 1500), ("close_slow", 6, 48), ("reply_then_close", 150, 2500),
-                  ("connclose_cross", 150, 2500), ("midframe_close", 60, 1000), ("mixed", 150, 2000)],
-        own_kinds=('connclose', 'backlog-midframe'),
+                  ("connclose_cross", 150, 2500), ("midframe_close", 60, 1000), ("close_window", 60, 1000), ("mixed", 150, 2000)],
+        own_kinds=('connclose', 'backlog-midframe', 'listener-closewindow'),
         mc_jobs=[("MC_Conn_close_q.cfg", None, "quick"), ("MC_Conn_close.cfg", None, "thorough"),
                  ("MC_Conn_close_bug.cfg", "SealedShrinks", None),
                  # towards a protocol-abiding server (own view of open channels / consumers, crossing closes
@@ -25,7 +25,9 @@ def run(tier, seed, t0):
              "answer CloseOk; plus slow callers: the close (server Close, or the CloseOk of a concurrent client close, or a "
              "channel close) arrives in the same burst as the reply of a caller that has not yet picked its reply up; "
              "plus crossing closes (the client's Close has reached the server when the server sends its own Close, "
-             "followed - in the same burst, later or never - by the CloseOk for the client's). non-trivial = the session has a consumer or a call in flight at "
+             "followed - in the same burst, later or never - by the CloseOk for the client's); plus the closing window "
+             "(Close written, CloseOk withheld): server events still arriving, and requests the application still "
+             "submits - none of which may be written. non-trivial = the session has a consumer or a call in flight at "
              "the close point; distinct = distinct step lists",
         nontrivial=lambda s: any(x.get("do") == "consume" or x.get("async") for x in s["steps"]),
         assumptions=_sess.COMMON_ASSUMPTIONS + [
